@@ -27,7 +27,11 @@ from mc.snapshot import snapshot
 from icalendar.cal import Calendar, Component, Event
 
 KINDS_RE = ("VEVENT", "VTIMEZONE", "VCALENDAR", "X-FOO", "STANDARD")
-JUNK = ("", " ", "x", "0", "-1", "20240101", "20240101T000000", "99999999T999999", "P", "PT", ",", ";", ":", "\\", '"', "9" * 300)
+JUNK = ("", " ", "x", "0", "-1", "20240101", "20240101T000000", "99999999T999999", "P", "PT", ",", ";", ":", "\\", '"', "9" * 300,
+        # values that are well-formed text of SOME type but out of range / of the wrong kind for the place they stand in
+        "P99999999999W", "-P99999999999D", "PT99999999999999999H", "20200101/20200102", "100000/110000", "20200101T000000Z/20200102",
+        "20200101T000000Z/P99999999999W", "99991231T235959Z/P1D", "00010101T000000Z/-P1D", "+99999999999", "1e999;-1e999", "nan;inf",
+        "00000000T000000Z", "20240230T250000", "FREQ=YEARLY;COUNT=0;INTERVAL=0", "+9999", "-240000")
 HOSTILE = (
     "DTSTART;TZID=Europe:20240101T000000", "DTSTART;TZID=/x:20240101T000000", "DTSTART;TZID=../../etc/passwd:20240101T000000",
     "DTSTART;TZID=:20240101T000000", "DTSTART;TZID=" + "a" * 300 + ":20240101T000000", "DTSTART;TZID=a\x00b:20240101T000000",
